@@ -845,7 +845,7 @@ def special_valid(rng):
         n1 = G.name_of_wire_len(l1)
         out.append(struct.pack(">HHHHHH", 6, 0x8180, 1, 2, 0, 0) + Qw + rrb(G.wire_name(n1), 15, b"\0\5" + G.wire_name(n1)) + rrb(G.wire_name(n1), 2, struct.pack(">H", 0xC000 | (12 + len(Qw)))))
     # a label starting at an offset whose low byte is 0xff / 0x00 / 0x01, named by a pointer from every kind of name
-    for T in (255, 256, 257, 512, 768, 4096, 8191, 8192, 8193, 12000, 16382, 16383):
+    for T in (255, 256, 257, 267, 268, 269, 512, 524, 768, 780, 4096, 4108, 8191, 8192, 8193, 12000, 16140, 16382, 16383):
         out += G.label_at_packets(T)
     # record types the library gives no meaning to, with data that looks like a name, like "2 bytes + a name", like a name followed
     # by junk, or like nothing at all: opaque means copied byte for byte by every operation (MD / MF / MB / MG / MR / AFSDB / RT /
@@ -903,6 +903,8 @@ class C03(Prop):
                    "W,an,1,*" + ALLR, "W,ed", "b"]
             rng.shuffle(ops[1:8])
             head, mid = ops[:1], ops[1:8]
+            # a question getter somewhere among the walks: what it remembers must not change what the walks after it return
+            mid.append(rng.choice(["q0", "q1", "q0", "q2"]))
             rng.shuffle(mid)
             cases.append(Case("w%d" % i, "\t".join(head + mid + ["b"]), {"family": "walk", "pkt": b.hex()}))
         # records whose fixed fields are combined freely (most are refused: the model and the code must refuse the same ones, and read
@@ -1443,6 +1445,13 @@ class C14(Prop):
             cases.append(Case("rb%d" % k, "\t".join(["P," + hx(BASE_RESPONSE), "W,an,0,*M%s.n.r" % hx(raw), "fp"]),
                               {"family": "readback", "name": nm.hex(), "raw": raw.hex()}))
             k += 1
+        # the C table's set_name with the three ways a hook has of saying "no default zone" (NULL, a valid pointer with length 0) and
+        # with a zone: relative and absolute names
+        for j, nm in enumerate([b"www", b"www.", b"a.b", b"a.b.", b"x" * 62, b"www.example.net", b"A-1._tcp", b"host"]):
+            for z in ("-", "+", hx(zone)):
+                cases.append(Case("tn%d_%s" % (j, "n" if z == "-" else "e" if z == "+" else "z"),
+                                  "PF,%s,W,an,n.N%s:%s.n/*n" % (hx(BASE_RESPONSE), hx(nm), z),
+                                  {"family": "table-set-name", "name": nm.hex(), "zone": z not in "-+"}))
         # read back through a record built from the text (RR::new) and inserted: the path that takes every byte the conversion
         # accepts, not only those the name setter and the parser allow (backslash, quote, space, control bytes, 127, 128, upper case)
         odd = [b"a", b"B", b"\\", b" ", b'"', b"\x01", b"\x7f", b"\x80", b"-", b"_", b"@", b"$", b"(", b";", b"0"]
@@ -1488,6 +1497,16 @@ class C14(Prop):
             else:
                 if T.ldh_name_ok(nm) and G.wire_len(T.expected_labels(nm, zl)) <= 253:
                     return "LDH name %r (wire length <= 253, labels <= 62) was rejected: %s" % (nm[:60], o)
+            return None
+        if case.meta["family"] == "table-set-name":
+            zl = self.ZONE if case.meta["zone"] else None
+            labels = T.expected_labels(nm, zl)
+            exp_txt = b".".join(labels).lower()
+            walk = io[0]
+            if "M=OK" not in walk:
+                return "set_name through the table refused the host name %r (%s zone): %s" % (nm, "with a" if zl else "without", walk[:200])
+            if ("M=OK n=%s]" % hx(exp_txt)) not in walk and ("M=OK n=%s|" % hx(exp_txt)) not in walk:
+                return "set_name through the table: the record reads back as %s, expected name %r" % (walk[:200], exp_txt)
             return None
         if case.meta["family"] == "readback-insert":
             if not io[1].startswith("OK"):
@@ -2237,7 +2256,8 @@ class C10(HistProp):
                 "fail (C10_delete_succeeds, C10_set_ttl_succeeds), none has a Panic outcome; histories that include them run to the end "
                 "(C08_histories_with_cursor_total). A failing whole-packet rename or recompute leaves object and cursor exactly as they were, any object, any arguments "
                 "(C10_failed_rename_changes_nothing, C10_failed_recompute_changes_nothing); on a packet as the parser returned it the rename "
-                "succeeds or reports an error, its consistency assertion is unreachable (C10_rename_total, C10_rename_keeps_edns_summary). Atomicity of the other failing operations (the question, text, "
+                "succeeds or reports an error, its consistency assertion is unreachable (C10_rename_total, C10_rename_keeps_edns_summary; also from any object satisfying the "
+                "invariant: C10_rename_total_on_decompressed). Atomicity of the other failing operations (the question, text, "
                 "operations that start on a compressed object) is decided each run by the correspondence and the before/after oracle.")
 
     def gen(self, rng, tier):
@@ -3084,6 +3104,15 @@ class C16(Prop):
                     n_thr = 1 + max(int(x.split(":")[0]) for x in st)
                     cases.append(Case("h%d" % k, "H,%d,%s" % (n_thr, ".".join(st)), {"family": "handed-slot"}))
                     k += 1
+        # the same schedules with every thread carrying the name the runtime gives the initial thread ("main"): what a thread is called
+        # must not decide where its description is kept
+        for order in list(set(itertools.permutations([0, 0, 0, 1, 1, 1])))[:10]:
+            cases.append(Case("h%d" % k, self.sched(rng, 2, list(order)).replace("H,", "HM,", 1), {"family": "threads-named-main"}))
+            k += 1
+        for _ in range(10 if tier == "quick" else 2000):
+            n = rng.choice([2, 3, 4])
+            cases.append(Case("h%d" % k, self.sched(rng, n, [rng.randrange(n) for _ in range(rng.randint(6, 12))]).replace("H,", "HM,", 1), {"family": "threads-named-main"}))
+            k += 1
         # thread 0 fails and stays alive, n short-lived threads then fail one after the other, thread 0 reads: a table of slots handed out
         # by a wrapping counter of any size up to n is detected (powers of two and their neighbours)
         for n in ((300, 4097, 65537) if tier == "quick" else (300, 4097, 65535, 65536, 65537, 131073)):
